@@ -105,7 +105,10 @@ RULE = ("cases = corpus/C11 witnesses + generated workspaces (as C10) x every po
         "name with the cursor anywhere in it, dangling dot at the end of a body and in its middle followed by exit / an if block / an assignment / a call / a chain, "
         "possibly after an empty line, a while block, break / continue / return); the operand left of the dot has a class in two cases of three and none in the third (native or undeclared type, "
         "untyped parameter, undeclared name, procedure / intrinsic result, a variable spelt like a class or module of the workspace but of another type) — no proposals there whatever follows) and every statement start (first column of every statement, empty lines; also in methods that follow body-less "
-        "external / forward methods with parameters); one evaluation = one completion request on the real ProjectManager, labels sorted with duplicates kept, compared with "
+        "external / forward methods with parameters; in classes / modules whose tables hold a name twice — a method announced by one or two forward declarations and defined "
+        "further down or in a descendant, a field / constant / local declared twice, a local named like a parameter: each name once, the latest spelling; in methods whose body "
+        "declares constants, types and variables between its statements, on those declaration lines, and in every OTHER method of that class and of its descendants: "
+        "a method's constants and variables are offered in that method only); one evaluation = one completion request on the real ProjectManager, labels sorted with duplicates kept, compared with "
         "the model and with the generator's visibility set; distinct_nontrivial = number of distinct non-empty implementation answers")
 
 
